@@ -30,6 +30,8 @@ struct Meta {
     lim: i64,
     /// letters of the observed commands nested inside this one
     inner: Vec<char>,
+    /// a system call was made to fail while this command was applied
+    flt: bool,
 }
 
 struct Gen {
@@ -94,6 +96,16 @@ impl Gen {
         (0..n).map(|_| self.redir(here_ok, stable)).collect()
     }
 
+    /// Sometimes: the text arming the fault injector for the next command.
+    fn fault(&mut self) -> Option<String> {
+        if self.rng.gen_range(0..100) >= 15 {
+            return None;
+        }
+        let call = self.pick(&["open", "tmp", "dup", "dup", "write", "lseek", "pipe", "pipe"]);
+        let n = self.rng.gen_range(1..=3);
+        Some(format!("arm {call} {n} EIO\n"))
+    }
+
     fn marks(&mut self) -> String {
         let mut fds: Vec<i32> = (0..10).filter(|_| self.rng.gen_range(0..100) < 45).collect();
         if fds.is_empty() {
@@ -117,6 +129,7 @@ impl Gen {
             nc: self.nc,
             lim: self.lim,
             inner: vec![],
+            flt: false,
         });
     }
 
@@ -159,6 +172,10 @@ impl Gen {
             out.push_str(&format!("fn{l}() {{ obs {tag} {marks}; return {bst}; }}\n"));
         }
         out.push_str(&format!("obs b{l}\n"));
+        let fault = self.fault();
+        if let Some(f) = &fault {
+            out.push_str(f);
+        }
         let body = format!("obs {tag}={bst} {marks}");
         let line = match kind {
             "group" => match self.rng.gen_range(0..5) {
@@ -190,6 +207,7 @@ impl Gen {
         // an external utility that is found: the simulated OS cannot run it (execve
         // fails in the child), what status results is the simulator's business
         self.meta(l, kind, list, bst, depth, kind != "external", true);
+        self.metas.last_mut().unwrap().flt = fault.is_some();
     }
 
     fn nest(&mut self, l: char, depth: usize, out: &mut String) {
@@ -228,6 +246,7 @@ impl Gen {
 
     fn pipeline(&mut self, l: char, depth: usize, out: &mut String) {
         let n = self.rng.gen_range(2..=3);
+        let fault = self.fault();
         let mut parts = vec![];
         let mut letters = vec![l];
         for _ in 1..n {
@@ -255,8 +274,9 @@ impl Gen {
             self.meta(e, "pipe", list, 0, depth, false, false);
             self.metas[idx].btag = format!("b{l}");
             self.metas[idx].atag = format!("a{l}");
+            self.metas[idx].flt = fault.is_some();
         }
-        out.push_str(&format!("obs b{l}\n{}\nobs a{l}\n", parts.join(" | ")));
+        out.push_str(&format!("obs b{l}\n{}{}\nobs a{l}\n", fault.unwrap_or_default(), parts.join(" | ")));
     }
 
     fn subst(&mut self, l: char, depth: usize, out: &mut String) {
@@ -267,8 +287,10 @@ impl Gen {
         let marks = self.marks();
         let mut list = vec![json!({"t": 1, "op": "pipew", "path": "", "n": -1, "data": []})];
         list.extend(user);
-        out.push_str(&format!("obs b{l}\nv=$(obs c{l} {marks} {rs})\nobs a{l}\n"));
+        let fault = self.fault();
+        out.push_str(&format!("obs b{l}\n{}v=$(obs c{l} {marks} {rs})\nobs a{l}\n", fault.clone().unwrap_or_default()));
         self.meta(l, "pipe", list, 0, depth, false, true);
+        self.metas.last_mut().unwrap().flt = fault.is_some();
     }
 }
 
@@ -332,6 +354,7 @@ pub fn random(args: &[String]) -> i32 {
             o.insert("lim".into(), json!(m.lim));
             o.insert("bst".into(), json!(m.bst));
             o.insert("list".into(), json!(m.list));
+            o.insert("flt".into(), json!(m.flt));
             o.insert("stchk".into(), json!(m.stchk));
             o.insert("fchk".into(), json!(m.fchk));
             o.insert("oc".into(), json!(scen::outcome_str(&r.outcome)));
